@@ -22,7 +22,7 @@ RULE = ("case kinds: nest = (fiber|tensor path, default, rectangular nest of dep
         "rand = (shape, density scalar or per rank, interval, default, injected draw stream, seed). "
         "observation = built tree, shape, uncompress(shape) and uncompress(); dictionary form, "
         "dict2fiber(fiber2dict), fiber and tensor YAML dump->load (both loaders) with rank ids, shape, name, "
-        "tree and ==; fromRandom tree over the injected stream plus reproducibility/inside/full flags "
+        "tree and == (the dict `==` flag also requires dict2fiber(fiber2dict) to reproduce exactly, tuple nesting included, every tuple-coordinate variant of the tensor: flattened 1-2 levels at depth 0-1, styles tuple/pair, pair twice); fromRandom tree over the injected stream plus reproducibility/inside/full flags "
         "for the real PRNG. default=None (no empty value; fromUncompressed, makePopulated, fromFiber+YAML, "
         "fromRandom) is the sentinel default -999983 that never occurs as a payload, None handed to the "
         "implementation and mapped back; shared representation modes: int / float / int-subclass values "
@@ -393,6 +393,43 @@ def _dict_v(y, mode):
     return enc(y, mode)
 
 
+def _exact(f):
+    """a fiber's coordinates and payloads with their exact Python structure (tuple vs list, nesting)"""
+    from fibertree import Fiber, Payload
+    return [repr(list(f.coords)),
+            [_exact(p) if isinstance(p, Fiber) else repr(Payload.get(p)) for p in f.payloads]]
+
+
+def _tuple_dict_exact(T):
+    """dict2fiber(fiber2dict(f)) reproduces f exactly (and ==) for the tuple-coordinate variants of the
+    tensor: flattened over 1 or 2 levels at depth 0 or 1, styles "tuple" and "pair", and pair-flattened twice
+    (nested tuples on either side).  A variant whose flattening itself raises is skipped (C09's business);
+    an exception in the dictionary round trip is a failure.  Folded into the `root == back` observation."""
+    from fibertree import Fiber
+    n = len(T.getRankIds())
+    variants = []
+    for depth in (0, 1):
+        for levels in (1, 2):
+            if depth + levels + 1 <= n:
+                for style in ("tuple", "pair"):
+                    variants.append(lambda d=depth, l=levels, s=style: T.flattenRanks(depth=d, levels=l, coord_style=s))
+    if n >= 3:
+        variants.append(lambda: T.flattenRanks(coord_style="pair").flattenRanks(coord_style="pair"))
+        variants.append(lambda: T.flattenRanks(depth=1, coord_style="pair").flattenRanks(coord_style="pair"))
+    for mk in variants:
+        try:
+            f = mk().getRoot()
+        except Exception:
+            continue
+        try:
+            b = Fiber.dict2fiber(f.fiber2dict())
+            if _exact(b) != _exact(f) or not (f == b) or not (b == f):
+                return False
+        except Exception:
+            return False
+    return True
+
+
 def run_nest(c):
     from fibertree import Fiber, Tensor
     mode = c["mode"]
@@ -484,7 +521,7 @@ def _run_tree(c):
             ffn = os.path.join(tmp, "f.yaml")
             root.dump(ffn)
             back2 = Fiber.fromYAMLfile(ffn)
-            od = [_dict_v(y, mode), [_snap(back, mode)], bool(root == back),
+            od = [_dict_v(y, mode), [_snap(back, mode)], bool(root == back) and _tuple_dict_exact(T),
                   [_snap(back2, mode)], bool(root == back2)]
             if _snap(T.getRoot(), mode) != before:
                 od = [-2, 1]
